@@ -12,6 +12,7 @@
 #include <string>
 #include <vector>
 
+#include "alloc.h"
 #include "json.h"
 #include "rng.h"
 
@@ -66,8 +67,8 @@ struct RunCtx {
 
   void fail(const std::string& cls_, const char* fmt, ...) __attribute__((format(printf, 3, 4)));
   void log(const char* fmt, ...) __attribute__((format(printf, 2, 3)));
-  void count(const std::string& k, int64_t n = 1) { stats[k] += n; }
-  void state(uint64_t h) { if (states.size() < 4096) states.insert(h); }
+  void count(const std::string& k, int64_t n = 1) { HarnessScope hs; stats[k] += n; }
+  void state(uint64_t h) { HarnessScope hs; if (states.size() < 4096) states.insert(h); }
 };
 
 // ---------------------------------------------------------------- worlds ---
@@ -106,6 +107,10 @@ class Sched {
   int current_id();
   bool in_task() { return cur_ != nullptr; }
   void kill_all();              // abandon all unfinished tasks (stacks freed without unwinding)
+  void finish_current() __attribute__((noreturn));  // terminate the calling task (exit / pthread_exit / cancellation)
+  void set_after_switch(std::function<void()> fn) { after_switch_ = std::move(fn); }  // run in scheduler context after every task switch
+  size_t runnable_count();
+  void set_before_switch(std::function<void(Task*)> fn) { before_switch_ = std::move(fn); }  // run in scheduler context before a task is resumed
 
   // --- clock / discrete events
   int64_t now_ns() const { return now_; }
@@ -143,6 +148,8 @@ class Sched {
   bool use_trace_ = false;
   Fnv il_hash_;
   std::vector<uint64_t> pct_change_;
+  std::function<void()> after_switch_;
+  std::function<void(Task*)> before_switch_;
 };
 
 // --------------------------------------------------- coverage / step budget
